@@ -53,11 +53,14 @@ const (
 	// atomic classes: T = atomic out-of-bounds trap kinds in every shape, O = okatomic in every shape
 	clT
 	clO
+	// named-start classes: S = named start letters, F = follow-ups (lookup, closeN, probes on A and B)
+	clS
+	clF
 	nClasses
 	nBaseClasses = clVn
 )
 
-var className = [nClasses]string{"K", "r0", "N", "R", "Vn", "Vr", "Vp", "T", "O"}
+var className = [nClasses]string{"K", "r0", "N", "R", "Vn", "Vr", "Vp", "T", "O", "S", "F"}
 
 // Context variants: every step of a word is called with its own cancellable context ("cancel") or its own
 // context with a generous deadline ("deadline"), which the harness cancels after the step has returned; or
@@ -71,7 +74,7 @@ var (
 )
 
 func init() {
-	for s := 0; s < NShapes; s++ {
+	for s := 0; s < nBaseShapes; s++ {
 		nk := NKinds
 		if shapes[s].target == 'B' {
 			nk = NBKinds
@@ -124,6 +127,12 @@ func init() {
 		}
 	}
 	classes[clVp] = []letter{{ShDirectA, KOk}, {ShIndirectA, KOk}, {ShHost1P, KOk}, {ShDirectB, KOk}}
+	for sh := ShNFnA; sh <= ShMSecSelf; sh++ {
+		for _, k := range shapeKinds(sh) {
+			classes[clS] = append(classes[clS], letter{sh, k})
+		}
+	}
+	classes[clF] = []letter{{ShLookup, KOk}, {ShCloseN, KOk}, {ShDirectA, KOk}, {ShDirectB, KOk}, {ShViaB, KOk}}
 }
 
 // ---------------------------------------------------------------- word space (indexable, no materialisation)
@@ -292,6 +301,14 @@ func sectionsFor(tier string) (secs []section, excludedByCap int64) {
 	for _, t := range at {
 		secs = append(secs, section{tuple: t, count: size(t), batch: 1024})
 	}
+	// named-start sections: a start function that fails / exits (itself, or inside a function imported from
+	// A or B), then the same name is instantiated again, looked up, closed, and A / B are called.
+	for _, t := range [][]int{{clS}, {clS, clS}, {clS, clF}, {clS, clS, clS}, {clS, clS, clF}, {clS, clF, clS}, {clS, clF, clF}} {
+		if len(t) == 3 && t[1] == clS && t[2] == clS && tier != "thorough" {
+			continue // S.S.S (46,656 words) only in thorough
+		}
+		secs = append(secs, section{tuple: t, count: size(t), batch: 1024})
+	}
 	// heavy (recursion) sections first so that they are spread over all workers before the light tail
 	sort.SliceStable(secs, func(i, j int) bool { return secs[i].recs() > secs[j].recs() })
 	return
@@ -361,10 +378,11 @@ type stepObs struct {
 	Class string
 	Ret   uint32
 	A, B  string
+	Reg   string // name registry: Runtime.Module of the named start instances
 }
 
 func (o stepObs) String() string {
-	return fmt.Sprintf("%s ret=%d | A{%s} | B{%s}", o.Class, o.Ret, o.A, o.B)
+	return fmt.Sprintf("%s ret=%d | A{%s} | B{%s} | registry{%s}", o.Class, o.Ret, o.A, o.B, o.Reg)
 }
 
 type viol struct {
@@ -490,9 +508,9 @@ func runWordSteps(e *engineRT, word []letter, mode string, stats *childStats, pr
 			cancel()
 			w.settle()
 		}
-		got := stepObs{cl, ret, observe(w.A), observe(w.B)}
+		got := stepObs{cl, ret, observe(w.A), observe(w.B), w.registry()}
 		mcl, mret := m.step(l, k)
-		want := stepObs{mcl, mret, m.A.String(), m.B.String()}
+		want := stepObs{mcl, mret, m.A.String(), m.B.String(), m.registry()}
 		if stats != nil {
 			stats.steps++
 			stats.hist[tag+":"+shapes[l.Shape].name+":"+cl]++
@@ -507,8 +525,8 @@ func runWordSteps(e *engineRT, word []letter, mode string, stats *childStats, pr
 		w.settle()
 		sharedCancel()
 		w.settle()
-		got := stepObs{"after-cancel", 0, observe(w.A), observe(w.B)}
-		want := stepObs{"after-cancel", 0, m.A.String(), m.B.String()}
+		got := stepObs{"after-cancel", 0, observe(w.A), observe(w.B), w.registry()}
+		want := stepObs{"after-cancel", 0, m.A.String(), m.B.String(), m.registry()}
 		if stats != nil {
 			stats.steps++
 			stats.hist[tag+":after-cancel"]++
@@ -528,6 +546,8 @@ func diffField(got, want stepObs) string {
 		return "result"
 	case got.A != want.A:
 		return "A:" + fieldDiff(got.A, want.A)
+	case got.Reg != want.Reg:
+		return "registry:" + fieldDiff(got.Reg, want.Reg)
 	default:
 		return "B:" + fieldDiff(got.B, want.B)
 	}
@@ -827,7 +847,7 @@ func main() {
 		Samples: samples.List(), Exhaustive: true, Outcomes: outcomes.Map(),
 		Bounds: map[string]any{"full_alphabet": len(fullAlphabet), "core_alphabet": coreNames, "shapes": NShapes, "kinds": NKinds,
 			"class_sizes": map[string]int{"K": len(classes[clK]), "r0": len(classes[clR0]), "N": len(classes[clN]), "R": len(classes[clR]),
-				"Vn": len(classes[clVn]), "Vr": len(classes[clVr]), "Vp": len(classes[clVp]), "T": len(classes[clT]), "O": len(classes[clO])},
+				"Vn": len(classes[clVn]), "Vr": len(classes[clVr]), "Vp": len(classes[clVp]), "T": len(classes[clT]), "O": len(classes[clO]), "S": len(classes[clS]), "F": len(classes[clF])},
 			"context_variants": ctxModes,
 			"sections": secs, "max_recursion_letters_per_word": maxRecPerWord, "engines": engines},
 		Extra: map[string]any{"words_excluded_by_recursion_cap": sp.excludedByCap, "words_run": words,
@@ -873,8 +893,8 @@ func replay() {
 			cmd.Env = append(cmd.Env, "GODEBUG=clobberfree=1")
 		}
 		out, err := cmd.CombinedOutput()
-		if len(out) > 6000 {
-			out = append(out[:6000], []byte("\n...")...)
+		if len(out) > 12000 { // keep the head and the verdict at the end
+			out = append(append(append([]byte{}, out[:6000]...), []byte("\n...\n")...), out[len(out)-5000:]...)
 		}
 		os.Stdout.Write(out)
 		if err == nil {
